@@ -1,4 +1,5 @@
 import SigHook.Model.Pipe
+import SigHook.Model.Skel
 /-!
 # C13 — Self-pipe wake: one non-blocking byte per delivery; fd owned and closed once
 
@@ -122,5 +123,12 @@ example : (burst (classify ⟨.dgram, false, 3, 3, 0, 0⟩).1 (classify ⟨.dgra
 example : (burst (classify ⟨.pipe, false, 0, 2, 0, 0⟩).1 (classify ⟨.pipe, false, 0, 2, 0, 0⟩).2 3).2 = [.wrote, .wrote, .eagain] := by decide
 /-- what the seeded slip "Write without O_NONBLOCK on a full datagram socket" would do -/
 example : (wake .write ⟨.dgram, false, 3, 3, 0, 0⟩).2 = .blocks := by decide
+
+/-- **C13.wake_skeleton** — tie to the source (regenerated): a wake-up is one call and nothing else - a
+one-byte `write` for descriptors classified `Write` (made non-blocking at registration), a one-byte `send`
+with `MSG_DONTWAIT` for sockets - no loop, no second attempt, no other system call. -/
+theorem C13_wake_skeleton :
+    skelOf "src/low_level/pipe.rs" "wake#1" = ["write", "send.nowait"] := by decide
+
 
 end SigHook.Pipe
